@@ -22,7 +22,10 @@ CFG = {'assumptions': ['f64 inputs cross the boundary as bit patterns and are de
                 'GeoProofs/Lemmas/C12Line.lean', 'GeoProofs/Lemmas/C12Fold.lean',
                 'GeoProofs/Lemmas/C12Closest.lean', 'GeoProofs/Lemmas/C12Interior.lean',
                 'GeoProofs/Lemmas/C12QCross.lean', 'GeoProofs/Lemmas/C12QScan.lean',
-                'GeoProofs/Lemmas/C12QSimple.lean', 'GeoProofs/Lemmas/C12QFold.lean', 'GeoProofs/Lemmas/C12QValid.lean'],
+                'GeoProofs/Lemmas/C12QSimple.lean', 'GeoProofs/Lemmas/C12QFold.lean', 'GeoProofs/Lemmas/C12QValid.lean',
+                'GeoProofs/Lemmas/WINDJump.lean', 'GeoProofs/Lemmas/WINDSimple.lean', 'GeoProofs/Lemmas/WINDHoles.lean',
+                'GeoProofs/Lemmas/WINDLink.lean', 'GeoProofs/Lemmas/WINDCross.lean', 'GeoProofs/Lemmas/WINDScan.lean',
+                'GeoProofs/Lemmas/WINDVertex.lean', 'GeoProofs/Lemmas/WINDSteps.lean', 'GeoProofs/Lemmas/WINDJordan.lean'],
  'rule': 'half closest_point, half interior_point; geometries: shapes::gen_valid (all 10 types, nested '
          'collections), dedicated streams of polyomino polygons whose hole touches the shell, thin slivers / '
          'C-shapes / combs whose centroid is outside, needles down to 1 ulp thin, rings with repeated vertices, mixed-dimension collections, empty and zero-length inputs, '
@@ -37,12 +40,9 @@ CFG = {'assumptions': ['f64 inputs cross the boundary as bit patterns and are de
                   'Geo.locate (relate itself is property C01)',
                   'the specification side (Geo.locate, exact point-segment distances, Geo.validGeom) is itself a '
                   'Lean definition, not proved against an external standard',
-                  'the existence of an Inside scan midpoint is PROVED for hole-free polygons with a simple exterior ring '
-                  '(interior_strict_ringSimple) and, for polyValid polygons with holes, under three explicit cross-ring '
-                  'hypotheses that validity implies but that are not derived (interior_strict_valid_partial: different rings '
-                  'never cross the scan line at the same abscissa; the shell winds around every point where a hole crosses '
-                  'the scan line); that remainder is standard geometry [S], tied down by the correspondence (the model never '
-                  'takes the vertex fallback on valid input; the checker demands Inside of the implementation\'s own point)']}
+                  'the existence of an Inside scan midpoint is PROVED for every polyValid polygon (interior_strict_valid); nothing about '
+                  'valid polygons is left as an assumption on the model side. polyValid itself (GeoModel/Valid.lean: simple rings, '
+                  'DE-9IM clauses of the specification between hole and shell and between holes, connected interior) is a definition']}
 
 MANIFEST = {'note': 'Trusted: Lean 4.33 kernel (axioms propext, Classical.choice, Quot.sound only; audited per theorem '
          'each run; no sorry, no native_decide, no added axioms); the Lean compiler running the model; the Rust '
@@ -79,7 +79,19 @@ MANIFEST = {'note': 'Trusted: Lean 4.33 kernel (axioms propext, Classical.choice
          'hit abscissae are pairwise distinct (interior_strict_simple), and for polygons with holes when moreover hole '
          'coordinates lie in the shell box and every hole crossing has a shell crossing to its left / is wound by the '
          'shell (interior_strict_holes_partial, interior_strict_holes_wound_partial); for polyValid polygons all but the '
-         'cross-ring hypotheses are derived from validity (interior_strict_valid_partial). The '
+         'cross-ring hypotheses are derived from validity in interior_strict_valid_partial, and the cross-ring hypotheses '
+         'themselves in valid_scan_crossings (Lemmas/WIND*.lean): the winding number of the two face samples beside a point of '
+         'an edge differs by one (windingE_jump); a point off the ring joined to a point of exactly one edge by a segment that '
+         'meets no other edge has the winding number of the face sample on its side (windingE_link), so crossing an edge '
+         'changes the winding number by one (windingE_cross); two simple rings through a common point that is a coordinate of '
+         'neither cross properly there unless BB has dimension 1 (crossing_points), which II = F excludes between two holes; '
+         'the Jordan-curve property of a simple ring in edge form — one side of every edge has winding number 0 '
+         '(ring_edge_one_side_outside: the left face sample keeps its winding number along an edge and around a vertex because the '
+         'other edges contribute potential differences that telescope along the closed ring, plus a 27-case local identity at the '
+         'vertex; at the left-most crossing of a level one side is 0) — with BE = F excludes it between hole and shell and makes '
+         'the shell wind around every hole crossing. Hence interior_point is strictly Inside for EVERY OGC-valid polygon and for '
+         'every non-empty MultiPolygon of valid members (interior_strict_valid, interior_polygon_inside_valid, '
+         'interior_multipolygon_inside_valid), no hypothesis besides polyValid. The '
          'MultiPolygon answer has maximal verified width. Each run the real closest_point / interior_point are run '
          'on generated geometries and the implementation\'s own f64 output is judged exactly by the DE-9IM '
          'specification: variant tag exact, returned point on g and nearest within tolerance; interior point not '
